@@ -444,8 +444,13 @@ __wrap_coap_socket_send(coap_socket_t *sock, coap_session_t *session,
     for (c = 0; c < v.copies && c < 4; c++)
       if (v.delay[c] > md)
         md = v.delay[c];
-    log_hdr("Tx", node, sim_session_id(session), data, datalen, &tmp, v.copies,
+    log_hdr(v.copies < 0 ? "TxFail" : "Tx", node, sim_session_id(session), data, datalen, &tmp, v.copies < 0 ? 0 : v.copies,
             session->proto == COAP_PROTO_DTLS, md);
+  }
+  if (v.copies < 0) {
+    /* the environment's verdict: the socket refuses this datagram (a transient error such as ENOBUFS) */
+    errno = ENOBUFS;
+    return -1;
   }
   /* the emission itself always gets an id so that Tx indices are dense */
   id = sim_inject(&src, &session->addr_info.remote, data, datalen,
